@@ -136,6 +136,10 @@ def late_branch_kill(sig, ctx) -> bool:
     return False
 
 
+def race_formula(sig, ctx) -> bool:
+    return ctx.get("source") == "race-model" and ctx["formula"] in sig["formulas"] and ctx.get("scenario") in sig["scenarios"]
+
+
 def always(sig, ctx) -> bool:
     return ctx["formula"] in sig.get("formulas", [ctx["formula"]])
 
@@ -147,5 +151,6 @@ PREDICATES = {
     "claim_window_before_stage": claim_window_before_stage,
     "claim_plan_window_data": claim_plan_window_data,
     "late_branch_kill": late_branch_kill,
+    "race_formula": race_formula,
     "always": always,
 }
